@@ -107,17 +107,14 @@ def mootsOf (table : List (List Nat)) (k : Nat) : List Nat := (table[k]?).getD [
 
 /-! ### internal errors known to remain reachable from a script
 
-On the tree with fixes D05, D06, D07, D07b, D08, D64, D65, D66, D67 (acting.py part), D69 applied.  `(finding, exception class,
+On the tree with fixes D05, D06, D07, D07b, D08, D64, D65, D66, D67 (acting.py part), D68, D69 applied.  `(finding, exception class,
 innermost function)`.  This table is the region predicate of the known findings of C14: a failing input is attributed
 to a finding only if its (class, function) is listed. -/
 def knownCrashSites : List (String × String × String) := [
   -- D67: `Store.add` / `Store.addNode` report a share path that runs through an existing share, or that names an
   --      existing node, with a bare ValueError (the Store's own contract, C18); the builder and the resolve code
   --      call `create` at a dozen places without translating it
-  ("D67", "ValueError", "add"), ("D67", "ValueError", "addNode"),
-  -- D68: `Act.resolvePath` indexes the parts of a relative path (`framer`, `frame`, `actor` alone) without checking
-  --      (fixes/D68-resolvepath-incomplete-relative.patch, waiting for the C13 model that reproduces the IndexError)
-  ("D68", "IndexError", "resolvePath")]
+  ("D67", "ValueError", "add"), ("D67", "ValueError", "addNode")]
 
 def crashFindings (cls fn : String) : List String :=
   (knownCrashSites.filter (fun e => e.2.1 == cls && e.2.2 == fn)).map (·.1)
